@@ -1,5 +1,6 @@
 import ReplicatProofs.Lemmas.SymBasic
 import ReplicatProofs.Lemmas.SymSession
+import ReplicatProofs.Lemmas.SymMulti
 /-!
 # C04 — damaged or substituted repository objects are never restored silently
 
@@ -16,6 +17,12 @@ source on every run; the proofs discharge them by `decide`, so they stop compili
 Sessions (`ReplicatModel/SymSession.lean`): the same reader as performed by ONE long-lived `Repository` object that issues many
 commands while the adversary changes the object map between them.  `Gen.chunkDigestCheckDominates` (the digest comparison is on
 every path to the writers) is what makes the object's state irrelevant; the `session_*` theorems discharge it by `decide`.
+
+Several snapshots (`ReplicatModel/SymMulti.lean`): the commands that SELECT among the loaded snapshots — restore without a filter
+(newest version of every path), restore / list-files / list-snapshots with or without a name filter.  For them "the damaged object
+was left out" is silent corruption, not an error path.  `Gen.snapLoadNeverSkipsListedOwn` (no path of the loader returns `None`
+for a listed object of the own family once it is read) is what excludes it; the theorems of the last section discharge it by
+`decide`.
 -/
 namespace Replicat.C04
 open Replicat Replicat.Sym
@@ -213,6 +220,134 @@ example :
         .restore exGood (snapshotName exStored), .restore exSwapped (snapshotName exStored)] =
       [.ok [(sec 50, [(sec 1, 0, 4), (sec 2, 0, 3)])], .error .corrupted,
        .ok [(sec 50, [(sec 1, 0, 4), (sec 2, 0, 3)])], .error .decryption] := by
+  decide +kernel
+
+/-! ## commands that select among several snapshots -/
+
+/-- **The load of a listed snapshot object has two outcomes: the verified original, or an error.**  For an object listed under
+its own tag and name — whatever its content: empty, one byte, all but the last byte, anything —, the loader of the code as it
+is (`skip` = whatever a loader that drops objects would drop) never answers "nothing". -/
+theorem listed_snapshot_is_verified_or_error (skip : Term → Bool) (p : Props) (stored0 obj : Term) :
+    (obj = stored0 ∧ ∃ r, loadSnapshotL Gen.snapLoadNeverSkipsListedOwn skip p (snapshotTag p (snapshotName stored0))
+        (snapshotName stored0) obj = .ok (some r)) ∨
+    (∃ e, loadSnapshotL Gen.snapLoadNeverSkipsListedOwn skip p (snapshotTag p (snapshotName stored0))
+        (snapshotName stored0) obj = .error e) := by
+  have hs : Gen.snapLoadNeverSkipsListedOwn = true := by decide
+  rw [hs, loadSnapshotL_sound]
+  cases h : loadSnapshot p (snapshotTag p (snapshotName stored0)) (snapshotName stored0) obj with
+  | error e => exact Or.inr ⟨e, rfl⟩
+  | ok r =>
+    cases r with
+    | none => exact absurd h (loadSnapshot_own_ne_none p _ obj)
+    | some r' =>
+      obtain ⟨hh, _⟩ := loadSnapshot_some h
+      exact Or.inl ⟨Term.hash.inj hh, r', rfl⟩
+
+/-- **A damaged listed snapshot fails every command that selects it.**  For EVERY object map `A`: if the location of a snapshot
+the client's family stored is still listed and holds anything but the stored bytes, then the unfiltered restore, the restore
+filtered to that name, list-files and list-snapshots (same filters) all fail — none of them goes on with the remaining
+snapshots (an older version of every file restored "successfully", an empty listing for a named snapshot). -/
+theorem damaged_listed_snapshot_fails_every_selecting_command (skip : Term → Bool) (p : Props) (A : Store)
+    (filter : Option Term) (stored0 obj : Term)
+    (hlisted : (snapshotTag p (snapshotName stored0), snapshotName stored0, obj) ∈ snapEntries A)
+    (hsel : selectedBy filter (snapshotName stored0) = true) (hdamaged : obj ≠ stored0) :
+    ∃ e, restoreCmd skip p A filter = .error e ∧ listFilesCmd skip p A filter = .error e ∧
+      listSnapshotsCmd skip p A filter = .error e := by
+  have hs : Gen.snapLoadNeverSkipsListedOwn = true := by decide
+  obtain ⟨e, he⟩ := loadSel_damaged_error skip p filter stored0 obj (snapEntries A) hlisted hsel hdamaged
+  refine ⟨e, ?_, ?_, ?_⟩
+  · simp [restoreCmd, restoreSel, hs, he]
+  · simp [listFilesCmd, listFilesSel, hs, he]
+  · simp [listSnapshotsCmd, listSnapshotsSel, hs, he]
+
+/-- **A command that returns normally after damage returns what it returns on the undamaged repository.**  `A` = the repository
+as stored (every listed snapshot object is the one stored under that name), `A'` = ANY object map with the same locations
+(contents of chunk and snapshot objects changed at will: truncated to 0 / 1 / len−1 bytes, emptied, flipped, extended, swapped,
+replayed).  Listings that return normally on `A'` are the listings of `A`; a restore that returns normally on `A'` wrote exactly
+what the restore of `A` writes.  (A removed snapshot object is a different listing: the reference is then `A` without it.) -/
+theorem ok_after_damage_is_the_undamaged_result (skip : Term → Bool) (p : Props) (A A' : Store) (filter : Option Term)
+    (hlocs : A.map (·.1) = A'.map (·.1)) (hA : honestEntries (snapEntries A)) :
+    (∀ rows, listFilesCmd skip p A' filter = .ok rows → listFilesCmd skip p A filter = .ok rows) ∧
+    (∀ rows, listSnapshotsCmd skip p A' filter = .ok rows → listSnapshotsCmd skip p A filter = .ok rows) ∧
+    (∀ out' out, restoreCmd skip p A' filter = .ok out' → restoreCmd skip p A filter = .ok out → out' = out) := by
+  have hs : Gen.snapLoadNeverSkipsListedOwn = true := by decide
+  have hT := fun bs => loadSel_ok_transfer skip p filter (snapEntries A) (snapEntries A') bs (sameListing_of_locs A A' hlocs) hA
+  refine ⟨?_, ?_, ?_⟩
+  · intro rows h
+    simp only [listFilesCmd, listFilesSel, hs] at h ⊢
+    split at h
+    · cases h
+    · rename_i bs hbs
+      rw [hT bs hbs]
+      exact h
+  · intro rows h
+    simp only [listSnapshotsCmd, listSnapshotsSel, hs] at h ⊢
+    split at h
+    · cases h
+    · rename_i bs hbs
+      rw [hT bs hbs]
+      exact h
+  · intro out' out h' h
+    simp only [restoreCmd, restoreSel, hs] at h' h
+    split at h'
+    · cases h'
+    · rename_i bs hbs
+      rw [hT bs hbs] at h
+      simp only [restoreOf] at h' h
+      exact restoreFiles_det _ _ (fun d m hm => fetchChunk_ok_digest hm) (fun d m hm => fetchChunk_ok_digest hm) _ _ _ h' h
+
+/-- **The one-name restore of the first section is the filtered command** (so `restore_ok_implies_identical` speaks about
+`restoreCmd … (some name)`). -/
+theorem restore_by_name_is_the_filtered_command (skip : Term → Bool) (p : Props) (s : Store) (target : Term) :
+    restoreCmd skip p s (some target) = restore p s target := by
+  have hs : Gen.snapLoadNeverSkipsListedOwn = true := by decide
+  have h := readable_loadSel_name skip p target (snapEntries s)
+  unfold restoreCmd restoreSel restore
+  rw [hs, ← h]
+  cases loadSel true skip p (some target) (snapEntries s) with
+  | error e => rfl
+  | ok bs => rfl
+
+/-! two snapshots of ONE path in an unencrypted repository: version 1 (chunk `sec 1`, time 7) and version 2 (chunk `sec 2`, time
+8); the same store with the NEWER snapshot object truncated to length 0 (`nil`) -/
+private def mvData1 : Data := ⟨7, [⟨sec 50, [⟨0, 1, 0, 4⟩], Term.hash (sec 60), pub 5⟩], nil⟩
+private def mvData2 : Data := ⟨8, [⟨sec 50, [⟨0, 1, 0, 6⟩], Term.hash (sec 61), pub 5⟩], nil⟩
+private def mvOld : Term := snapshotStored plP nil nil (encTable [digest (sec 1)]) (encData mvData1)
+private def mvNew : Term := snapshotStored plP nil nil (encTable [digest (sec 2)]) (encData mvData2)
+private def mvGood : Store :=
+  [(plLoc (sec 1), sec 1), (plLoc (sec 2), sec 2), (snapLoc plP (snapshotName mvOld), mvOld), (snapLoc plP (snapshotName mvNew), mvNew)]
+private def mvEmptied : Store :=
+  [(plLoc (sec 1), sec 1), (plLoc (sec 2), sec 2), (snapLoc plP (snapshotName mvOld), mvOld), (snapLoc plP (snapshotName mvNew), nil)]
+private def skipEmpty (t : Term) : Bool := decide (t = nil)
+
+set_option synthInstance.maxSize 512 in
+/-- **A loader that drops an object instead of reporting it is exactly the defect** (so the theorems above are not vacuous):
+with a loader that lets the empty object go as "nothing", the unfiltered restore of the damaged repository returns normally with
+the OLDER version of the file, and the restore filtered to the damaged snapshot's name returns normally having written nothing;
+list-files names no file of the damaged snapshot.  The loader of the theorems reports the corruption in all three. -/
+theorem dropping_loader_restores_the_older_version :
+    restoreSel true skipEmpty plP mvGood none = .ok [(sec 50, [(sec 2, 0, 6)])] ∧
+    restoreSel false skipEmpty plP mvEmptied none = .ok [(sec 50, [(sec 1, 0, 4)])] ∧
+    restoreSel false skipEmpty plP mvEmptied (some (snapshotName mvNew)) = .ok [] ∧
+    listFilesSel false skipEmpty plP mvEmptied (some (snapshotName mvNew)) = .ok [] ∧
+    restoreSel true skipEmpty plP mvEmptied none = .error .corrupted ∧
+    restoreSel true skipEmpty plP mvEmptied (some (snapshotName mvNew)) = .error .corrupted ∧
+    listFilesSel true skipEmpty plP mvEmptied (some (snapshotName mvNew)) = .error .corrupted ∧
+    listSnapshotsSel true skipEmpty plP mvEmptied none = .error .corrupted := by
+  decide +kernel
+
+/-! non-vacuity of `ok_after_damage_is_the_undamaged_result`: a damaged chunk that the unfiltered restore does not need (only the
+superseded version refers to it) lets the command return normally — with the result of the undamaged repository; the restore
+filtered to the OLDER name needs it and fails. -/
+private def mvOldChunkGone : Store :=
+  [(plLoc (sec 1), nil), (plLoc (sec 2), sec 2), (snapLoc plP (snapshotName mvOld), mvOld), (snapLoc plP (snapshotName mvNew), mvNew)]
+
+set_option synthInstance.maxSize 512 in
+example :
+    restoreCmd skipEmpty plP mvOldChunkGone none = restoreCmd skipEmpty plP mvGood none ∧
+    restoreCmd skipEmpty plP mvOldChunkGone none = .ok [(sec 50, [(sec 2, 0, 6)])] ∧
+    restoreCmd skipEmpty plP mvOldChunkGone (some (snapshotName mvOld)) = .error .corrupted ∧
+    listFilesCmd skipEmpty plP mvGood none = .ok [(snapshotName mvNew, sec 50), (snapshotName mvOld, sec 50)] := by
   decide +kernel
 
 end Replicat.C04
